@@ -227,6 +227,26 @@ func (h *seqHist) opRowClone() {
 		h.fail("clone-not-independent", fmt.Sprintf("Row(%d).Clone carries letters %q qualities %v, the row holds %q %v", ri, l, []byte(q), row.L, row.Q))
 		return
 	}
+	// the copy is a sequence of its own: it reverse-complements (or reverses) like any other
+	if rc, isRC := c.(interface{ RevComp() }); isRC && h.r.Rng.Intn(2) == 0 {
+		comp := h.r.Rng.Intn(3) != 0
+		want := mCont{Kind: h.m.Kind, Alpha: h.m.Alpha, Rows: []mRow{{L: append([]byte(nil), row.L...), Q: append([]byte(nil), row.Q...)}}}
+		want.revRow(0, comp)
+		what := "Reverse"
+		if comp {
+			rc.RevComp()
+			what = "RevComp"
+		} else {
+			c.(interface{ Reverse() }).Reverse()
+		}
+		h.Ops[len(h.Ops)-1] += ", " + what + " on the copy"
+		l, q := readRow(c, c.Start(), c.End(), h.m.hasQ())
+		if l != string(want.Rows[0].L) || (h.m.hasQ() && q != string(want.Rows[0].Q)) {
+			h.fail("clone-revcomp", fmt.Sprintf("%s of the copy of row %d gives letters %q qualities %v, want %q %v", what, ri, l, []byte(q), want.Rows[0].L, want.Rows[0].Q))
+			return
+		}
+		h.r.Count("op_row_clone_then_reversed", 1)
+	}
 	for p := c.Start(); p < c.End(); p++ { // the container must not notice (checked right after this operation)
 		c.Set(p, alphabet.QLetter{L: '!', Q: 1})
 	}
